@@ -8,127 +8,127 @@ package opoptions
 // ---- C19: each option writes exactly the setting it names (and nothing else), ignores foreign objects ----
 // (skeletons generated once from the code by `govc optgen`, then reviewed against each option's documentation)
 
-//@ func WithCallbackComplete$1 [C19]
+//@ func WithCallbackComplete$1 [C19 C18]
 //@   modifies as(o, "*generic.Callback").Complete
 //@   ensures #applies typeis(o, "*generic.Callback") ==> result == nil && as(o, "*generic.Callback").Complete == true
 //@   ensures #ignored !typeis(o, "*generic.Callback") ==> result == util.ErrIgnoredOption
 
-//@ func WithCallbackContains$1 [C19]
+//@ func WithCallbackContains$1 [C19 C18]
 //@   modifies as(o, "*generic.Callback").Contains
 //@   ensures #applies typeis(o, "*generic.Callback") ==> result == nil && as(o, "*generic.Callback").Contains == s
 //@   ensures #ignored !typeis(o, "*generic.Callback") ==> result == util.ErrIgnoredOption
 
-//@ func WithCallbackContainsRe$1 [C19]
+//@ func WithCallbackContainsRe$1 [C19 C18]
 //@   modifies as(o, "*generic.Callback").ContainsRe
 //@   ensures #applies typeis(o, "*generic.Callback") ==> result == nil && as(o, "*generic.Callback").ContainsRe == p
 //@   ensures #ignored !typeis(o, "*generic.Callback") ==> result == util.ErrIgnoredOption
 
-//@ func WithCallbackInsensitive$1 [C19]
+//@ func WithCallbackInsensitive$1 [C19 C18]
 //@   modifies as(o, "*generic.Callback").Insensitive
 //@   ensures #applies typeis(o, "*generic.Callback") ==> result == nil && as(o, "*generic.Callback").Insensitive == b
 //@   ensures #ignored !typeis(o, "*generic.Callback") ==> result == util.ErrIgnoredOption
 
-//@ func WithCallbackName$1 [C19]
+//@ func WithCallbackName$1 [C19 C18]
 //@   modifies as(o, "*generic.Callback").Name
 //@   ensures #applies typeis(o, "*generic.Callback") ==> result == nil && as(o, "*generic.Callback").Name == s
 //@   ensures #ignored !typeis(o, "*generic.Callback") ==> result == util.ErrIgnoredOption
 
-//@ func WithCallbackNextTimeout$1 [C19]
+//@ func WithCallbackNextTimeout$1 [C19 C18]
 //@   modifies as(o, "*generic.Callback").NextTimeout
 //@   ensures #applies typeis(o, "*generic.Callback") ==> result == nil && as(o, "*generic.Callback").NextTimeout == d
 //@   ensures #ignored !typeis(o, "*generic.Callback") ==> result == util.ErrIgnoredOption
 
-//@ func WithCallbackNotContains$1 [C19]
+//@ func WithCallbackNotContains$1 [C19 C18]
 //@   modifies as(o, "*generic.Callback").NotContains
 //@   ensures #applies typeis(o, "*generic.Callback") ==> result == nil && as(o, "*generic.Callback").NotContains == s
 //@   ensures #ignored !typeis(o, "*generic.Callback") ==> result == util.ErrIgnoredOption
 
-//@ func WithCallbackOnce$1 [C19]
+//@ func WithCallbackOnce$1 [C19 C18]
 //@   modifies as(o, "*generic.Callback").Once
 //@   ensures #applies typeis(o, "*generic.Callback") ==> result == nil && as(o, "*generic.Callback").Once == true
 //@   ensures #ignored !typeis(o, "*generic.Callback") ==> result == util.ErrIgnoredOption
 
-//@ func WithCallbackResetOutput$1 [C19]
+//@ func WithCallbackResetOutput$1 [C19 C18]
 //@   modifies as(o, "*generic.Callback").ResetOutput
 //@   ensures #applies typeis(o, "*generic.Callback") ==> result == nil && as(o, "*generic.Callback").ResetOutput == true
 //@   ensures #ignored !typeis(o, "*generic.Callback") ==> result == util.ErrIgnoredOption
 
-//@ func WithCommitConfirmTimeout$1 [C19]
+//@ func WithCommitConfirmTimeout$1 [C19 C03]
 //@   modifies as(o, "*netconf.OperationOptions").CommitConfirmTimeout
 //@   ensures #applies typeis(o, "*netconf.OperationOptions") ==> result == nil && as(o, "*netconf.OperationOptions").CommitConfirmTimeout == t
 //@   ensures #ignored !typeis(o, "*netconf.OperationOptions") ==> result == util.ErrIgnoredOption
 
-//@ func WithCommitConfirmed$1 [C19]
+//@ func WithCommitConfirmed$1 [C19 C03]
 //@   modifies as(o, "*netconf.OperationOptions").CommitConfirmed
 //@   ensures #applies typeis(o, "*netconf.OperationOptions") ==> result == nil && as(o, "*netconf.OperationOptions").CommitConfirmed == true
 //@   ensures #ignored !typeis(o, "*netconf.OperationOptions") ==> result == util.ErrIgnoredOption
 
-//@ func WithCommitConfirmedPersist$1 [C19]
+//@ func WithCommitConfirmedPersist$1 [C19 C03]
 //@   modifies as(o, "*netconf.OperationOptions").CommitConfirmedPersist
 //@   ensures #applies typeis(o, "*netconf.OperationOptions") ==> result == nil && as(o, "*netconf.OperationOptions").CommitConfirmedPersist == label
 //@   ensures #ignored !typeis(o, "*netconf.OperationOptions") ==> result == util.ErrIgnoredOption
 
-//@ func WithCommitConfirmedPersistID$1 [C19]
+//@ func WithCommitConfirmedPersistID$1 [C19 C03]
 //@   modifies as(o, "*netconf.OperationOptions").CommitConfirmedPersistID
 //@   ensures #applies typeis(o, "*netconf.OperationOptions") ==> result == nil && as(o, "*netconf.OperationOptions").CommitConfirmedPersistID == id
 //@   ensures #ignored !typeis(o, "*netconf.OperationOptions") ==> result == util.ErrIgnoredOption
 
-//@ func WithCompletePatterns$1 [C19]
+//@ func WithCompletePatterns$1 [C19 C12]
 //@   modifies as(o, "*channel.OperationOptions").CompletePatterns
 //@   ensures #applies typeis(o, "*channel.OperationOptions") ==> result == nil && as(o, "*channel.OperationOptions").CompletePatterns == p
 //@   ensures #ignored !typeis(o, "*channel.OperationOptions") ==> result == util.ErrIgnoredOption
 
-//@ func WithDefaultType$1 [C19]
+//@ func WithDefaultType$1 [C19 C03]
 //@   modifies as(o, "*netconf.OperationOptions").DefaultType
 //@   ensures #applies typeis(o, "*netconf.OperationOptions") ==> result == nil && as(o, "*netconf.OperationOptions").DefaultType == s
 //@   ensures #ignored !typeis(o, "*netconf.OperationOptions") ==> result == util.ErrIgnoredOption
 
-//@ func WithEager$1 [C19]
+//@ func WithEager$1 [C19 C01]
 //@   modifies as(o, "*channel.OperationOptions").Eager
 //@   ensures #applies typeis(o, "*channel.OperationOptions") ==> result == nil && as(o, "*channel.OperationOptions").Eager == true
 //@   ensures #ignored !typeis(o, "*channel.OperationOptions") ==> result == util.ErrIgnoredOption
 
-//@ func WithExactMatchInput$1 [C19]
+//@ func WithExactMatchInput$1 [C19 C01 C12]
 //@   modifies as(o, "*channel.OperationOptions").ExactMatchInput
 //@   ensures #applies typeis(o, "*channel.OperationOptions") ==> result == nil && as(o, "*channel.OperationOptions").ExactMatchInput == true
 //@   ensures #ignored !typeis(o, "*channel.OperationOptions") ==> result == util.ErrIgnoredOption
 
-//@ func WithFailedWhenContains$1 [C19]
+//@ func WithFailedWhenContains$1 [C19 C13]
 //@   modifies as(o, "*generic.OperationOptions").FailedWhenContains
 //@   ensures #applies typeis(o, "*generic.OperationOptions") ==> result == nil && as(o, "*generic.OperationOptions").FailedWhenContains == fw
 //@   ensures #ignored !typeis(o, "*generic.OperationOptions") ==> result == util.ErrIgnoredOption
 
-//@ func WithFilter$1 [C19]
+//@ func WithFilter$1 [C19 C03]
 //@   modifies as(o, "*netconf.OperationOptions").Filter
 //@   ensures #applies typeis(o, "*netconf.OperationOptions") ==> result == nil && as(o, "*netconf.OperationOptions").Filter == s
 //@   ensures #ignored !typeis(o, "*netconf.OperationOptions") ==> result == util.ErrIgnoredOption
 
-//@ func WithFilterType$1 [C19]
+//@ func WithFilterType$1 [C19 C03]
 //@   modifies as(o, "*netconf.OperationOptions").FilterType
 //@   ensures #applies typeis(o, "*netconf.OperationOptions") ==> result == nil && as(o, "*netconf.OperationOptions").FilterType == s
 //@   ensures #ignored !typeis(o, "*netconf.OperationOptions") ==> result == util.ErrIgnoredOption
 
-//@ func WithInterimPromptPattern$1 [C19]
+//@ func WithInterimPromptPattern$1 [C19 C01]
 //@   modifies as(o, "*channel.OperationOptions").InterimPromptPatterns
 //@   ensures #applies typeis(o, "*channel.OperationOptions") ==> result == nil && as(o, "*channel.OperationOptions").InterimPromptPatterns == p
 //@   ensures #ignored !typeis(o, "*channel.OperationOptions") ==> result == util.ErrIgnoredOption
 
-//@ func WithNoStripPrompt$1 [C19]
+//@ func WithNoStripPrompt$1 [C19 C01]
 //@   modifies as(o, "*channel.OperationOptions").StripPrompt
 //@   ensures #applies typeis(o, "*channel.OperationOptions") ==> result == nil && as(o, "*channel.OperationOptions").StripPrompt == false
 //@   ensures #ignored !typeis(o, "*channel.OperationOptions") ==> result == util.ErrIgnoredOption
 
-//@ func WithPrivilegeLevel$1 [C19]
+//@ func WithPrivilegeLevel$1 [C19 C04]
 //@   modifies as(o, "*network.OperationOptions").PrivilegeLevel
 //@   ensures #applies typeis(o, "*network.OperationOptions") ==> result == nil && as(o, "*network.OperationOptions").PrivilegeLevel == s
 //@   ensures #ignored !typeis(o, "*network.OperationOptions") ==> result == util.ErrIgnoredOption
 
-//@ func WithStopOnFailed$1 [C19]
+//@ func WithStopOnFailed$1 [C19 C13]
 //@   modifies as(o, "*generic.OperationOptions").StopOnFailed
 //@   ensures #applies typeis(o, "*generic.OperationOptions") ==> result == nil && as(o, "*generic.OperationOptions").StopOnFailed == true
 //@   ensures #ignored !typeis(o, "*generic.OperationOptions") ==> result == util.ErrIgnoredOption
 
-//@ func WithTimeoutOps$1 [C19]
+//@ func WithTimeoutOps$1 [C19 C05]
 //@   modifies as(o, "*channel.OperationOptions").Timeout, as(o, "*netconf.OperationOptions").Timeout
 //@   ensures #applies typeis(o, "*channel.OperationOptions") ==> result == nil && as(o, "*channel.OperationOptions").Timeout == t
 //@   ensures #applies typeis(o, "*netconf.OperationOptions") ==> result == nil && as(o, "*netconf.OperationOptions").Timeout == t
